@@ -18,6 +18,7 @@ struct ObjectHeaderBase *g_pushed, *g_deleted, *g_created, *g_dequeued;
 uint32_t g_lc_usize; size_t g_lc_vecsize; int64_t g_read_req; uint32_t g_pushed_type, g_encoded_type;
 int64_t g_sig_pos;           /* position of the signature ObjectHeaderBase::read accepted */
 uint32_t vb_last_osize;      /* objectSize it decoded */
+int64_t g_obj_end;           /* get position right after the codec's read() */
 struct FileStatistics g_stats_at_write;
 
 static int vb_nondet_int(void) { int x; return x; }
@@ -28,6 +29,7 @@ static uint32_t vb_nondet_u32(void) { uint32_t x; return x; }
 _Bool UncompressedFile_good(struct UncompressedFile *u) { return u->m_rdstate == IOS_goodbit; }
 _Bool UncompressedFile_eof(struct UncompressedFile *u) { return (u->m_rdstate & IOS_eofbit) != 0; }
 int64_t UncompressedFile_gcount(struct UncompressedFile *u) { return u->m_gcount; }
+int64_t UncompressedFile_tellg(struct UncompressedFile *u) { return (u->m_rdstate & (IOS_failbit | IOS_badbit)) ? -1 : u->m_tellg; }
 int64_t UncompressedFile_tellp(struct UncompressedFile *u) { return (u->m_rdstate & (IOS_failbit | IOS_badbit)) ? -1 : u->m_tellp; }
 uint32_t UncompressedFile_defaultLogContainerSize(struct UncompressedFile *u) { return u->m_defaultLogContainerSize; }
 void UncompressedFile_setDefaultLogContainerSize(struct UncompressedFile *u, uint32_t c) { u->m_defaultLogContainerSize = c; }
@@ -94,14 +96,15 @@ void ObjectHeaderBase_v_read(struct ObjectHeaderBase *p, struct AbstractFile *af
     struct UncompressedFile *u = &vb_file->m_uncompressedFile;
     __CPROVER_assert(af == &u->b_AbstractFile && __CPROVER_w_ok(p, sizeof(*p)), "codec read precondition");
     /* C10 R2/R4: position never behind the object start nor past the declared end; exception only eof / allocation */
+    int64_t g0 = u->m_tellg;
     int64_t g = vb_nondet_i64(); __CPROVER_assume(g >= u->m_tellg && g <= u->m_fileSize);
-    u->m_tellg = g;
+    u->m_tellg = g; g_obj_end = g;
     { uint32_t t = vb_nondet_u32(); p->objectType = t; uint32_t s = vb_nondet_u32(); p->objectSize = s; }
     int k = vb_nondet_int();
     if (k == 1) { u->m_rdstate = IOS_eofbit | IOS_failbit; }
     else if (k == 2) { u->m_rdstate = IOS_eofbit | IOS_failbit; vb_exc = VB_EXC_BLF; }
     else if (k == 3) { vb_exc = VB_EXC_STD; }
-    else u->m_rdstate = IOS_goodbit;
+    else { u->m_rdstate = IOS_goodbit; __CPROVER_assume(g >= g0 + 16); }   /* C10 R5: a decode that ends good has consumed at least the 16-byte base header */
 }
 void ObjectHeaderBase_v_write(struct ObjectHeaderBase *p, struct AbstractFile *af)
 {
